@@ -1305,8 +1305,17 @@ func (w *worker) writeCombiner(key TaskName) {
 	for part := range w.combiners[key] {
 		part := part
 		combiner := <-w.combiners[key][part]
-		g.Go(func() error {
-			err := w.commitLimiter.Acquire(ctx, 1)
+		g.Go(func() (err error) {
+			// Merging the combiner's spilled runs invokes the user's
+			// combine function.
+			defer func() {
+				if e := recover(); e != nil {
+					stack := debug.Stack()
+					err = fmt.Errorf("panic while writing combiner: %v\n%s", e, string(stack))
+					err = errors.E(err, errors.Fatal)
+				}
+			}()
+			err = w.commitLimiter.Acquire(ctx, 1)
 			if err != nil {
 				return err
 			}
